@@ -396,7 +396,7 @@ def run_job(job):
 
 def make_jobs(tier, seed):
     rng = random.Random(100000 + seed)
-    jobs = [{'kind': 'session', 'seed': rng.randrange(1 << 30), 'i': i} for i in range(300 if tier == 'quick' else 6000)]
+    jobs = [{'kind': 'session', 'seed': rng.randrange(1 << 30), 'i': i} for i in range(300 if tier == 'quick' else 16000)]
     for i in range(6 if tier == 'quick' else 60):
         jobs.append({'kind': 'sweep', 'seed': rng.randrange(1 << 30), 'n': 150, 'type': ['futures', 'spot', 'futures'][i % 3],
                      'cur': rng.choice([100.0, 0.00037, 43210.5, 1.0, 7.77])})
